@@ -273,6 +273,15 @@ func F2(thorough bool) []*Program {
 			fn("NewT1", []string{"V0"}, []string{"*T1"}, true),
 			fn("NewT0", []string{"*T1", "V0"}, []string{"*T0"}, false),
 		}}}})
+	// Value whose source is declared in a generated sibling file and is named like the local
+	// variable the injector would choose (v0 for V0); goroutines force the var block
+	add(&Program{Desc: "value-from-generated-file", Types: typeNames(3), Consts: []string{"type V0 string"}, GenConsts: []string{"const v0 V0 = \"x\"", "var t2 = 0"}, Decls: []Decl{{
+		Name: "InitP", Request: "*T0", Provs: []Prov{
+			{Kind: KValue, ValueOf: "v0", Results: []string{"V0"}, Name: "value:v0", VTerm: "(litS \"x\")"},
+			func() Prov { p := fn("NewT1", []string{"V0"}, []string{"*T1"}, false); p.Async = true; return p }(),
+			func() Prov { p := fn("NewT2", nil, []string{"*T2"}, false); p.Async = true; return p }(),
+			fn("NewT0", []string{"*T1", "*T2", "V0"}, []string{"*T0"}, false),
+		}}}})
 	// Two-result provider
 	for _, e := range []bool{false, true} {
 		add(&Program{Desc: fmt.Sprintf("multi-result err=%v", e), Types: typeNames(4), Decls: []Decl{{
@@ -479,6 +488,10 @@ func FN() []*Program {
 	add("injector name = variable base name, same file", []string{"App", "Server", "Db"}, nil, nil,
 		named("db", "Server", "Server:Db", "Db:"),
 		named("InitApp", "App", "App:Db", "Db:"))
+	// package-level identifiers that live in a generated sibling file (stringer, protobuf, ...)
+	out = append(out, &Program{Family: "FN", Desc: "package-level names db/server declared in a generated file", Types: []string{"App", "Server", "Db"},
+		GenConsts: []string{"var db = 1", "func server() int { return db }", "const app = 2"},
+		Decls:     []Decl{named("InitApp", "App", "App:Server,Db", "Server:Db!a", "Db:!a")}})
 	// suffixed user types
 	add("types Foo and Foo0, two injectors needing both", []string{"Foo", "Foo0", "Bar"}, nil, nil,
 		named("InitBar", "Bar", "Bar:Foo,Foo0", "Foo:", "Foo0:"),
